@@ -202,6 +202,23 @@ class FnText:
                 return
         raise Unsupported(f'{self.name}: no &self receiver for @recv mut')
 
+    # T15 ------------------------------------------------------------------
+    def wildparam(self, name):
+        """T15 `@wildparam name`: the first wildcard parameter `_: T` of the SIGNATURE becomes `name: T` (Verus demands a
+        plain identifier pattern for every function parameter).  Giving an unused parameter a name does not change the
+        function; a name that already occurs in the function is refused."""
+        for i in range(len(self.s)):
+            if self.stok(i).kind == 'ident' and self.stok(i).text == name:
+                raise Unsupported(f'{self.name}: @wildparam: `{name}` already occurs in the function')
+        i = 0
+        while self.stok(i).start < self.body_open:
+            t = self.stok(i)
+            if t.kind == 'ident' and t.text == '_' and self.stok(i + 1).text == ':' and self.stok(i - 1).text in ('(', ','):
+                self.edits.append((t.start, t.end, name, ('T15', 'wildparam')))
+                return
+            i += 1
+        raise Unsupported(f'{self.name}: @wildparam: no `_: T` parameter in the signature')
+
     def name_ret(self, name):
         """`-> T` in the signature becomes `-> (name: T)` so that ensures clauses can mention the result"""
         depth = 0
@@ -868,6 +885,8 @@ def process_extract(block_text, tmpl_path, tmpl_line, report):
             ft.replace(int(m.group(1)), m.group(2), m.group(3))
         elif d == 'ret':
             ft.name_ret(arg.strip())
+        elif d == 'wildparam':
+            ft.wildparam(arg.strip())
         elif d == 'as':
             # exec canary: the same real body under another name with a deliberately wrong contract
             for i2 in range(len(ft.s) - 1):
